@@ -167,6 +167,9 @@ func concurrencyUses(c *Ctx, fn *ssa.Function) []string {
 		}
 		if cc := callCommonOf(i); cc != nil {
 			k := calleeKey(cc)
+			if mutexPairOK(c, fn, k) {
+				return
+			}
 			for _, pfx := range []string{"sync.", "(*sync.", "(sync.", "sync/atomic.", "(*sync/atomic.", "golang.org/x/sync/", "(*golang.org/x/sync/"} {
 				if strings.HasPrefix(k, pfx) {
 					out = append(out, "call of "+shortKey(k)+" at "+c.InstrPos(i))
@@ -396,6 +399,8 @@ func ruleC06(c *Ctx, r *Report) {
 		u := mr[g]
 		construct := "global:" + g.Name()
 		switch {
+		case len(u.reads) > 0 && len(u.writes) > 0 && c.completeKeyMemo(g, u).ok:
+			r.OK("C06-R1a", construct, c.InstrPos(u.writes[0]), "a single-entry memo: a hit needs the whole key to be equal, the stored value is computed from that key alone and stored together with a private copy of it - what one line leaves behind is what the next one would compute itself")
 		case len(u.reads) > 0 && len(u.writes) > 0:
 			r.Bad("C06-R1a", construct, c.InstrPos(u.writes[0]),
 				fmt.Sprintf("package-level state is written (%s) and read (%s) while processing lines: what one line leaves behind can change what a later line yields", c.InstrPos(u.writes[0]), c.InstrPos(u.reads[0])))
@@ -1834,6 +1839,10 @@ func crossLineStateRule(c *Ctx, r *Report, fns map[*ssa.Function]bool, rule, con
 	n := 0
 	for _, g := range gs {
 		u := mr[g]
+		if len(u.reads) > 0 && len(u.writes) > 0 && c.completeKeyMemo(g, u).ok {
+			r.OK(rule, "global:"+g.Name(), c.InstrPos(u.writes[0]), "a single-entry memo with a complete key (memo.go): a hit yields what the miss path would compute")
+			continue
+		}
 		if len(u.reads) > 0 && len(u.writes) > 0 {
 			n++
 			r.Bad(rule, "global:"+g.Name(), c.InstrPos(u.writes[0]),
@@ -1946,4 +1955,54 @@ func counterIncrement(ld *ssa.UnOp, g *ssa.Global) bool {
 		}
 	}
 	return n == 1
+}
+
+// mutexPairOK: Lock / Unlock (RLock / RUnlock) calls on a sync.Mutex / RWMutex are no-ops in a
+// program that never starts a goroutine - they cannot reorder or interleave anything. Accepted
+// when no function of the analysed package contains a go statement and the function locks as
+// often as it unlocks (call sites; a lock without its unlock would stop the second line dead).
+func mutexPairOK(c *Ctx, fn *ssa.Function, k string) bool {
+	switch k {
+	case "(*sync.Mutex).Lock", "(*sync.Mutex).Unlock", "(*sync.RWMutex).Lock", "(*sync.RWMutex).Unlock", "(*sync.RWMutex).RLock", "(*sync.RWMutex).RUnlock":
+	default:
+		return false
+	}
+	if fn.Pkg != c.SPkg {
+		return false
+	}
+	if c.noGoroutines == 0 {
+		c.noGoroutines = 1
+		var visit func(f *ssa.Function)
+		visit = func(f *ssa.Function) {
+			allInstrs(f, func(i ssa.Instruction) {
+				if _, isGo := i.(*ssa.Go); isGo {
+					c.noGoroutines = 2
+				}
+			})
+			for _, a := range f.AnonFuncs {
+				visit(a)
+			}
+		}
+		for _, f := range c.SortedFuncs() {
+			visit(f)
+		}
+		if init := c.SPkg.Func("init"); init != nil {
+			visit(init)
+		}
+	}
+	if c.noGoroutines != 1 {
+		return false
+	}
+	locks, unlocks := 0, 0
+	allInstrs(fn, func(i ssa.Instruction) {
+		if cc := callCommonOf(i); cc != nil {
+			switch calleeKey(cc) {
+			case "(*sync.Mutex).Lock", "(*sync.RWMutex).Lock", "(*sync.RWMutex).RLock":
+				locks++
+			case "(*sync.Mutex).Unlock", "(*sync.RWMutex).Unlock", "(*sync.RWMutex).RUnlock":
+				unlocks++
+			}
+		}
+	})
+	return locks > 0 && locks == unlocks
 }
